@@ -17,7 +17,7 @@ def execute(case):
     g = gcmpy.EECC()
     order = case.get("order", "edges_first")        # the size bound may be set before, after or in the middle of loading the edges
     feed = case.get("feed", "add_edge")
-    if order == "bound_first" or (order == "bound_midway" and feed != "add_edge"):
+    if order == "bound_first" or (order in ("bound_midway", "bound_early") and feed != "add_edge"):
         g.set_max_clique_size(case["m0"])
     if feed == "add_edges_from":          # the bulk loader of the Network base class, with the documented list of tuples
         g.add_edges_from(list(edges))
@@ -28,8 +28,8 @@ def execute(case):
         g.G = H
     else:
         for n_, e in enumerate(edges):
-            if order == "bound_midway" and n_ == len(edges) // 2:
-                g.set_max_clique_size(case["m0"])
+            if (order == "bound_midway" and n_ == len(edges) // 2) or (order == "bound_early" and n_ == min(1, len(edges) - 1)):
+                g.set_max_clique_size(case["m0"])        # (bound_early: after the very first edge, when the graph has two vertices)
             g.add_edge(e)
     pre = case.get("pre")
     if pre:
@@ -197,7 +197,7 @@ def run(chk):
             traces.append(execute({"edges": union_of_cliques([list(p) for p in parts]), "m0": m0,
                                    "rng": ("seed", rng.randrange(1 << 30)), "order": ["edges_first", "bound_first", "bound_midway"][len(traces) % 3]}))
     # isolated small cliques next to a path: the size bound given before / while the edges are loaded
-    for order in ("bound_first", "bound_midway", "edges_first"):
+    for order in ("bound_first", "bound_midway", "edges_first", "bound_early"):
         for m0 in (3, 4, 5):
             es = union_of_cliques([list(range(0, m0))]) + [(10, 11), (11, 12), (12, 13)]
             traces.append(execute({"edges": es, "m0": m0, "rng": ("seed", rng.randrange(1 << 30)), "order": order}))
@@ -213,7 +213,7 @@ def run(chk):
         if not es:
             continue
         traces.append(execute({"edges": es, "m0": rng.choice([2, 2, 3, 4, 6]), "rng": ("seed", rng.randrange(1 << 30)), "watchdog": 120, "feed": ["add_edge", "add_edges_from", "graph"][i % 3],
-                               "order": ["edges_first", "edges_first", "bound_first", "bound_midway"][i % 4]}))
+                               "order": ["edges_first", "bound_early", "bound_first", "bound_midway"][i % 4]}))
     for t in traces:
         t.pop("trail", None)
     if und:
